@@ -1,2 +1,660 @@
-From Coq Require Import List ZArith NArith Bool Lia Arith.
+(* C04/Proofs.v — lemmas and invariants for C04/Model.v *)
+From Coq Require Import List ZArith NArith Bool Lia Arith ZifyBool ZifyNat ZifyN.
+From stdpp Require Import gmap nmap.
 From OV Require Import C04.Model.
+Import ListNotations.
+Local Open Scope N_scope.
+
+Ltac Zify.zify_post_hook ::= Z.div_mod_to_equations.
+
+(* ------------------------------------------------------------------ bytes *)
+Lemma bytes_eqb_eq a b : bytes_eqb a b = true <-> a = b.
+Proof.
+  revert b; induction a as [|x a IH]; intros [|y b]; simpl; split; intros Hx; try congruence; try discriminate.
+  - apply andb_true_iff in Hx as [H1 H2]. apply N.eqb_eq in H1. apply IH in H2. congruence.
+  - inversion Hx; subst. apply andb_true_iff; split; [apply N.eqb_refl | apply IH; reflexivity].
+Qed.
+
+Lemma tuple_eqb_eq a b : tuple_eqb a b = true <-> a = b.
+Proof.
+  destruct a as [[m1 s1] c1], b as [[m2 s2] c2]. unfold tuple_eqb.
+  rewrite !andb_true_iff, bytes_eqb_eq, !N.eqb_eq. split.
+  - intros [[-> ->] ->]; reflexivity.
+  - intros Hx; inversion Hx; auto.
+Qed.
+
+Lemma be32_put32 ts : ts < two32 ->
+  exists a b c d, put32 ts = [a; b; c; d] /\ be32 a b c d = ts.
+Proof.
+  intros Hlt. unfold Base.put32, Base.be32, Base.byte_of, two32 in *.
+  do 4 eexists; split; [reflexivity|]. lia.
+Qed.
+
+Lemma put16_inj a b : a < 65536 -> b < 65536 -> put16 a = put16 b -> a = b.
+Proof.
+  unfold Base.put16, Base.byte_of. intros Ha Hb Hx. inversion Hx. lia.
+Qed.
+
+Lemma put32_inj a b : a < two32 -> b < two32 -> put32 a = put32 b -> a = b.
+Proof.
+  unfold Base.put32, Base.byte_of, two32. intros Ha Hb Hx. inversion Hx. lia.
+Qed.
+
+(* ------------------------------------------------------------------ cookie *)
+Lemma enc_agree mac sv cv ts : enc_val mac sv cv (put32 ts) = enc_gen mac sv cv ts.
+Proof. reflexivity. Qed.
+
+Lemma enc_gen_injective m1 s1 c1 t1 m2 s2 c2 t2 :
+  s1 < 65536 -> c1 < 65536 -> t1 < two32 -> s2 < 65536 -> c2 < 65536 -> t2 < two32 ->
+  enc_gen m1 s1 c1 t1 = enc_gen m2 s2 c2 t2 -> m1 = m2 /\ s1 = s2 /\ c1 = c2 /\ t1 = t2.
+Proof.
+  intros Hs1 Hc1 Ht1 Hs2 Hc2 Ht2 He. unfold enc_gen in He.
+  apply app_inj_2 in He as [Hm He]; [|reflexivity].
+  apply app_inj_1 in He as [Hs He]; [|reflexivity].
+  apply app_inj_1 in He as [Hc He]; [|reflexivity].
+  repeat split; auto using put16_inj, put32_inj.
+Qed.
+
+Section Cookie.
+  Variable H : bytes -> bytes.
+
+  Lemma generate_shape now t : (forall d, length (H d) = 32%nat) ->
+    let '(mac, sv, cv) := t in
+    generate H now t = H (enc_gen mac sv cv (now mod two32)) ++ put32 (now mod two32).
+  Proof.
+    intros Hlen. destruct t as [[mac sv] cv]. unfold generate, go_copy.
+    rewrite Hlen. change (length (repeat 0 32)) with 32%nat.
+    rewrite <- (Hlen (enc_gen mac sv cv (now mod two32))) at 1. rewrite firstn_all.
+    change (skipn 32 (repeat 0 32)) with (@nil N). rewrite app_nil_r. reflexivity.
+  Qed.
+
+  (* what Validate computes on a 32+4 byte cookie *)
+  Lemma validate_split ttl now sig a b c d mac sv cv : length sig = 32%nat ->
+    validate H ttl now (sig ++ [a; b; c; d]) (mac, sv, cv) =
+    (negb (ttl <? now - Z.of_N (be32 a b c d) * ns_per_s)%Z &&
+     bytes_eqb sig (H (enc_val mac sv cv [a; b; c; d]))).
+  Proof.
+    intros Hl. unfold validate. rewrite app_length, Hl. simpl negb. cbv iota.
+    replace (skipn 32 (sig ++ [a; b; c; d])) with [a; b; c; d]
+      by (rewrite <- Hl, skipn_app, skipn_all, Nat.sub_diag; reflexivity).
+    replace (firstn 32 (sig ++ [a; b; c; d])) with sig
+      by (rewrite <- Hl, firstn_app, firstn_all, Nat.sub_diag; simpl; rewrite app_nil_r; reflexivity).
+    destruct (ttl <? _)%Z; reflexivity.
+  Qed.
+
+  Lemma cookie_roundtrip ttl now_ns now_s t : (forall d, length (H d) = 32%nat) ->
+    validate H ttl now_ns (generate H now_s t) t = true <->
+    (now_ns - Z.of_N (now_s mod two32) * ns_per_s <= ttl)%Z.
+  Proof.
+    intros Hlen. pose proof (generate_shape now_s t Hlen) as Hg. destruct t as [[mac sv] cv]. rewrite Hg.
+    assert (Hlt : now_s mod two32 < two32) by (unfold two32; lia).
+    destruct (be32_put32 _ Hlt) as (a & b & c & d & Hp & Hb).
+    rewrite Hp, validate_split by apply Hlen. rewrite Hb, <- Hp, enc_agree.
+    replace (bytes_eqb _ _) with true by (symmetry; apply bytes_eqb_eq; reflexivity).
+    rewrite andb_true_r, negb_true_iff, Z.ltb_ge. reflexivity.
+  Qed.
+
+  Lemma validate_length ttl now c t : validate H ttl now c t = true -> length c = 36%nat.
+  Proof.
+    destruct t as [[mac sv] cv]. unfold validate.
+    destruct (Nat.eqb_spec (length c) 36); simpl; [auto | discriminate].
+  Qed.
+
+  (* decomposition of an accepted cookie *)
+  Lemma validate_true_inv ttl now c mac sv cv : validate H ttl now c (mac, sv, cv) = true ->
+    exists a b c4 d, skipn 32 c = [a; b; c4; d] /\
+      (now - Z.of_N (be32 a b c4 d) * ns_per_s <= ttl)%Z /\
+      firstn 32 c = H (enc_val mac sv cv [a; b; c4; d]).
+  Proof.
+    unfold validate. destruct (Nat.eqb (length c) 36); simpl; [|discriminate].
+    destruct (skipn 32 c) as [|a [|b [|c4 [|d [|? ?]]]]]; try discriminate.
+    destruct (Z.ltb_spec ttl (now - Z.of_N (be32 a b c4 d) * ns_per_s)); [discriminate|].
+    intros Hx%bytes_eqb_eq. exists a, b, c4, d. auto.
+  Qed.
+
+  Lemma validate_expired ttl now c mac sv cv a b c4 d : skipn 32 c = [a; b; c4; d] ->
+    (ttl < now - Z.of_N (be32 a b c4 d) * ns_per_s)%Z -> validate H ttl now c (mac, sv, cv) = false.
+  Proof.
+    intros Hs Hlt. unfold validate. destruct (negb _); [reflexivity|]. rewrite Hs.
+    destruct (Z.ltb_spec ttl (now - Z.of_N (be32 a b c4 d) * ns_per_s)); [reflexivity | lia].
+  Qed.
+
+  (* the messages this BNG has MACed: one per Generate call *)
+  Definition issue := (tuple * N)%type.                 (* tuple, timestamp (u32 seconds) *)
+  Definition enc_issue (i : issue) : bytes := let '((mac, sv, cv), ts) := i in enc_gen mac sv cv ts.
+  Definition wf_tuple (t : tuple) : Prop := let '(_, sv, cv) := t in sv < 65536 /\ cv < 65536.
+  Definition wf_issue (i : issue) : Prop := wf_tuple (fst i) /\ snd i < two32.
+
+  Lemma cookie_sound ttl now c t issued :
+    (forall d, firstn 32 c = H d -> In d (map enc_issue issued)) ->      (* H_mac_unforgeable *)
+    Forall wf_issue issued -> wf_tuple t ->
+    validate H ttl now c t = true ->
+    exists ts, In (t, ts) issued /\ (now - Z.of_N ts * ns_per_s <= ttl)%Z /\ skipn 32 c = put32 ts.
+  Proof.
+    intros Hunf Hwf Hwt Hv. destruct t as [[mac sv] cv].
+    destruct (validate_true_inv _ _ _ _ _ _ Hv) as (a & b & c4 & d & Hs & Hfresh & Hsig).
+    apply Hunf in Hsig. apply in_map_iff in Hsig as ([[[mac' sv'] cv'] ts'] & He & Hin).
+    rewrite Coq.Lists.List.Forall_forall in Hwf. destruct (Hwf _ Hin) as [[Hsv' Hcv'] Hts']. simpl in Hsv', Hcv', Hts'.
+    destruct Hwt as [Hsv Hcv].
+    simpl in He. unfold enc_gen, enc_val in He.
+    apply app_inj_2 in He as [Hm He]; [|reflexivity].
+    apply app_inj_1 in He as [Hs1 He]; [|reflexivity].
+    apply app_inj_1 in He as [Hc1 He]; [|reflexivity].
+    assert (sv' = sv) by (apply put16_inj; auto). assert (cv' = cv) by (apply put16_inj; auto). subst.
+    exists ts'. split; [exact Hin|]. split; [|congruence].
+    destruct (be32_put32 _ Hts') as (a' & b' & c' & d' & Hp & Hb).
+    rewrite Hp in He. injection He as <- <- <- <-. rewrite Hb in Hfresh. exact Hfresh.
+  Qed.
+End Cookie.
+
+(* ------------------------------------------------------------------ session-id allocation *)
+Definition nx (n : N) : N := let n1 := u16 (n + 1) in if N.eqb n1 0 then 1 else n1.
+
+Lemma nx_range n : 0 < nx n < 65536.
+Proof. unfold nx, u16. destruct (N.eqb_spec ((n + 1) mod 65536) 0); lia. Qed.
+
+Lemma nx_val n : 0 < n < 65536 -> nx n = if N.eqb n 65535 then 1 else n + 1.
+Proof.
+  intros Hn. unfold nx, u16. destruct (N.eqb_spec n 65535) as [->|Hne]; [reflexivity|].
+  destruct (N.eqb_spec ((n + 1) mod 65536) 0); lia.
+Qed.
+
+Lemma alloc_loop_unfold f m start nxt :
+  alloc_loop (S f) m start nxt =
+  if negb (sid_used m nxt) then Ok (nxt, nx nxt)
+  else if N.eqb (nx nxt) start then Ok (0, nx nxt)
+  else alloc_loop f m start (nx nxt).
+Proof. reflexivity. Qed.
+
+(* safety: whatever the loop returns is 0 or a free id in 1..65535; the counter stays in 1..65535 *)
+Lemma alloc_loop_sound fuel m start : forall nxt sid n',
+  0 < nxt < 65536 -> alloc_loop fuel m start nxt = Ok (sid, n') ->
+  0 < n' < 65536 /\ (sid = 0 \/ (m !! sid = None /\ 0 < sid < 65536)).
+Proof.
+  induction fuel as [|f IH]; intros nxt sid n' Hn Ha; [discriminate|].
+  rewrite alloc_loop_unfold in Ha. pose proof (nx_range nxt) as Hr.
+  unfold sid_used in Ha. destruct (m !! nxt) eqn:El; simpl in Ha.
+  - destruct (N.eqb (nx nxt) start).
+    + inversion Ha; subst. split; [lia | left; reflexivity].
+    + eapply IH; [|exact Ha]. lia.
+  - inversion Ha; subst. split; [lia | right; split; [exact El | lia]].
+Qed.
+
+(* position of an id in the cyclic scan that starts at [start] *)
+Definition pos (start n : N) : N := (n + 65535 - start) mod 65535.
+
+Lemma pos_nx start n : 0 < start < 65536 -> 0 < n < 65536 -> nx n <> start -> pos start (nx n) = pos start n + 1.
+Proof. intros Hs Hn. rewrite nx_val by exact Hn. unfold pos. destruct (N.eqb_spec n 65535); intros; lia. Qed.
+
+Lemma pos_last start n : 0 < start < 65536 -> 0 < n < 65536 -> nx n = start -> pos start n = 65534.
+Proof. intros Hs Hn. rewrite nx_val by exact Hn. unfold pos. destruct (N.eqb_spec n 65535); intros; lia. Qed.
+
+Lemma pos_inj start a b : 0 < start < 65536 -> 0 < a < 65536 -> 0 < b < 65536 -> pos start a = pos start b -> a = b.
+Proof. unfold pos. intros; lia. Qed.
+
+Lemma pos_bound start n : pos start n < 65535.
+Proof. unfold pos. lia. Qed.
+
+(* completeness: with enough fuel the loop scans every id once; it answers 0 only when all
+   65535 ids are in use, and never runs out of fuel *)
+Lemma alloc_loop_complete m start : 0 < start < 65536 ->
+  forall fuel nxt, 0 < nxt < 65536 ->
+  (forall j, 0 < j < 65536 -> pos start j < pos start nxt -> m !! j <> None) ->
+  65535 <= N.of_nat fuel + pos start nxt ->
+  exists sid n', alloc_loop fuel m start nxt = Ok (sid, n') /\
+    ((sid <> 0 /\ m !! sid = None) \/ (sid = 0 /\ forall j, 0 < j < 65536 -> m !! j <> None)).
+Proof.
+  intros Hs. induction fuel as [|f IH]; intros nxt Hn Hused Hfuel.
+  - pose proof (pos_bound start nxt). lia.
+  - rewrite alloc_loop_unfold. unfold sid_used. destruct (m !! nxt) eqn:El; simpl.
+    + destruct (N.eqb_spec (nx nxt) start) as [He|Hne].
+      * exists 0, (nx nxt). split; [reflexivity|]. right. split; [reflexivity|].
+        intros j Hj. pose proof (pos_last start nxt Hs Hn He) as Hl.
+        destruct (N.eq_dec (pos start j) (pos start nxt)) as [Hp|Hp].
+        -- apply pos_inj in Hp; auto. subst j. congruence.
+        -- apply Hused; [exact Hj|]. pose proof (pos_bound start j). lia.
+      * pose proof (nx_range nxt) as Hr. pose proof (pos_nx start nxt Hs Hn Hne) as Hp.
+        apply IH; [lia| |lia].
+        intros j Hj Hlt. destruct (N.eq_dec (pos start j) (pos start nxt)) as [Hq|Hq].
+        -- apply pos_inj in Hq; auto. subst j. congruence.
+        -- apply Hused; [exact Hj | lia].
+    + exists nxt, (nx nxt). split; [reflexivity|]. left. split; [lia | exact El].
+Qed.
+
+Lemma alloc_fuel_enough : 65535 <= N.of_nat alloc_fuel.
+Proof. unfold alloc_fuel. lia. Qed.
+
+Lemma norm_next_range n : n < 65536 -> 0 < norm_next Repaired n < 65536.
+Proof. unfold norm_next; simpl. destruct (N.eqb_spec n 0); lia. Qed.
+
+Lemma allocate_sound v m nxt sid n' : 0 < norm_next v nxt < 65536 ->
+  allocate v m nxt = Ok (sid, n') ->
+  0 < n' < 65536 /\ (sid = 0 \/ (m !! sid = None /\ 0 < sid < 65536)).
+Proof. unfold allocate. intros Hn Ha. eapply alloc_loop_sound; eauto. Qed.
+
+Lemma allocate_complete v m nxt : 0 < norm_next v nxt < 65536 ->
+  exists sid n', allocate v m nxt = Ok (sid, n') /\
+    ((sid <> 0 /\ m !! sid = None) \/ (sid = 0 /\ forall j, 0 < j < 65536 -> m !! j <> None)).
+Proof.
+  intros Hn. unfold allocate. apply alloc_loop_complete; auto.
+  - intros j Hj Hlt. unfold pos in Hlt. lia.
+  - pose proof alloc_fuel_enough. lia.
+Qed.
+
+(* ------------------------------------------------------------------ table invariant *)
+Definition live (s : st) (x : sess) : Prop :=
+  (exists k, by_sid s !! k = Some x) \/ (exists t, by_tup s !! t = Some x).
+
+Record Inv (s : st) : Prop := {
+  inv_sid : forall k x, by_sid s !! k = Some x -> s_sid x = k /\ 0 < k < 65536;
+  inv_tup : forall t x, by_tup s !! t = Some x -> s_tup x = t /\ by_sid s !! (s_sid x) = Some x;
+  inv_next : next s < 65536;
+  inv_ctr : forall k x, by_sid s !! k = Some x -> s_uid x < ctr s
+}.
+
+Lemma Inv_st0 : Inv st0.
+Proof. split; simpl; intros; try lia; rewrite lookup_empty in *; discriminate. Qed.
+
+Lemma Inv_with_next s n : Inv s -> n < 65536 -> Inv (with_next s n).
+Proof. intros [A B C D] Hn. split; simpl; auto. Qed.
+
+Lemma Inv_add s x : Inv s -> by_sid s !! s_sid x = None -> 0 < s_sid x < 65536 -> s_uid x = ctr s ->
+  Inv (bump_ctr (add_indexes x s)).
+Proof.
+  intros [A B C D] Hfree Hr Hu. split; simpl.
+  - intros k y Hl. destruct (N.eq_dec (s_sid x) k) as [<-|Hne].
+    + rewrite lookup_insert in Hl. inversion Hl; subst. auto.
+    + rewrite lookup_insert_ne in Hl by exact Hne. auto.
+  - intros t y Hl. destruct (decide (s_tup x = t)) as [<-|Hne].
+    + rewrite lookup_insert in Hl. inversion Hl; subst. split; [reflexivity | apply lookup_insert].
+    + rewrite lookup_insert_ne in Hl by exact Hne. destruct (B _ _ Hl) as [B1 B2]. split; [exact B1|].
+      rewrite lookup_insert_ne; [exact B2|]. intros He. rewrite He in Hfree. congruence.
+  - exact C.
+  - intros k y Hl. destruct (N.eq_dec (s_sid x) k) as [<-|Hne].
+    + rewrite lookup_insert in Hl. inversion Hl; subst. lia.
+    + rewrite lookup_insert_ne in Hl by exact Hne. specialize (D _ _ Hl). lia.
+Qed.
+
+Lemma Inv_remove s k x : Inv s -> by_sid s !! k = Some x -> Inv (remove_indexes x s).
+Proof.
+  intros [A B C D] Hx. split; simpl.
+  - intros k' y Hl. apply lookup_delete_Some in Hl as [_ Hl]. auto.
+  - intros t y Hl. apply lookup_delete_Some in Hl as [Hne Hl]. destruct (B _ _ Hl) as [B1 B2].
+    split; [exact B1|]. apply lookup_delete_Some. split; [|exact B2].
+    intros He. destruct (A _ _ Hx) as [A1 _]. rewrite A1 in He. rewrite <- He, Hx in B2.
+    inversion B2; subst. congruence.
+  - exact C.
+  - intros k' y Hl. apply lookup_delete_Some in Hl as [_ Hl]. eauto.
+Qed.
+
+Lemma u16_lt n : u16 n < 65536.
+Proof. unfold u16. lia. Qed.
+
+Lemma step_Inv e s o s' r : Inv s -> step Repaired e s o = Some (s', r) -> Inv s'.
+Proof.
+  intros HI Hs. destruct o as [t|t p|t sid|t sid|sid|sid t|n]; simpl in Hs.
+  - destruct (e_grp e t); inversion Hs; subst; exact HI.
+  - destruct (parse_tags p) as [tg|?| |]; try discriminate; [|inversion Hs; subst; exact HI].
+    destruct (validate _ _ _ _ _); simpl in Hs; [|inversion Hs; subst; exact HI].
+    destruct (e_grp e t); simpl in Hs; [|inversion Hs; subst; exact HI].
+    destruct (allocate Repaired (by_sid s) (next s)) as [[sid n']|?| |] eqn:Ea; try discriminate.
+    apply allocate_sound in Ea; [|apply norm_next_range, HI]. destruct Ea as [Hn' Hsid].
+    destruct (N.eqb_spec sid 0) as [->|Hne]; simpl in Hs; inversion Hs; subst.
+    + apply Inv_with_next; [exact HI | lia].
+    + destruct Hsid as [?|[Hfree Hr]]; [contradiction|].
+      apply Inv_add; simpl; auto. apply Inv_with_next; [exact HI | lia].
+  - destruct (by_sid s !! sid) as [x|] eqn:El; [|inversion Hs; subst; exact HI].
+    destruct (owner_ok Repaired x t); inversion Hs; subst; [|exact HI]. eapply Inv_remove; eauto.
+  - destruct (by_sid s !! sid) as [x|] eqn:El; [|inversion Hs; subst; exact HI].
+    destruct (owner_ok Repaired x t); inversion Hs; subst; exact HI.
+  - destruct (by_sid s !! sid) as [x|] eqn:El; inversion Hs; subst; [|exact HI]. eapply Inv_remove; eauto.
+  - unfold sid_used in Hs. destruct (N.eqb_spec sid 0); simpl in Hs; [discriminate|].
+    destruct (N.ltb_spec sid 65536); simpl in Hs; [|discriminate].
+    destruct (by_sid s !! sid) eqn:El; [discriminate|]. inversion Hs; subst.
+    apply Inv_with_next.
+    + apply Inv_add; simpl; auto. lia.
+    + destruct (N.leb (next s) sid); [apply u16_lt | apply HI].
+  - destruct (N.ltb_spec n 65536); inversion Hs; subst. apply Inv_with_next; auto.
+Qed.
+
+Lemma run_Inv e : forall ops s s' outs, Inv s -> run Repaired e s ops = Some (s', outs) -> Inv s'.
+Proof.
+  induction ops as [|o r IH]; simpl; intros s s' outs HI Hr.
+  - inversion Hr; subst; exact HI.
+  - destruct (step Repaired e s o) as [[s1 x]|] eqn:Es; [|discriminate].
+    destruct (run Repaired e s1 r) as [[s2 xs]|] eqn:Er; [|discriminate].
+    inversion Hr; subst. eapply IH; [|exact Er]. eapply step_Inv; eauto.
+Qed.
+
+Lemma live_in_sid s x : Inv s -> live s x -> by_sid s !! s_sid x = Some x.
+Proof.
+  intros HI [[k Hk]|[t Ht]].
+  - destruct (inv_sid _ HI _ _ Hk) as [-> _]. exact Hk.
+  - apply (inv_tup _ HI _ _ Ht).
+Qed.
+
+Lemma sid_distinct_nonzero_inv s x y : Inv s -> live s x -> live s y ->
+  0 < s_sid x < 65536 /\ (s_sid x = s_sid y -> x = y).
+Proof.
+  intros HI Hx Hy. apply live_in_sid in Hx; auto. apply live_in_sid in Hy; auto.
+  split; [apply (inv_sid _ HI _ _ Hx)|]. intros He. rewrite He in Hx. congruence.
+Qed.
+
+Lemma sid_distinct_nonzero e ops s outs x y :
+  run Repaired e st0 ops = Some (s, outs) -> live s x -> live s y ->
+  0 < s_sid x < 65536 /\ (s_sid x = s_sid y -> x = y).
+Proof. intros Hr. apply sid_distinct_nonzero_inv. eapply run_Inv; [apply Inv_st0 | exact Hr]. Qed.
+
+(* ------------------------------------------------------------------ isolation *)
+Definition sender (o : op) : option tuple :=
+  match o with PADI t | PADR t _ | PADT t _ | SESS t _ => Some t | _ => None end.
+
+Lemma owner_ok_repaired x t : owner_ok Repaired x t = true -> s_tup x = t.
+Proof. unfold owner_ok; simpl. apply tuple_eqb_eq. Qed.
+
+Lemma isolation e s o s' r t : Inv s -> sender o = Some t -> step Repaired e s o = Some (s', r) ->
+  (forall k x, by_sid s !! k = Some x -> s_tup x <> t -> by_sid s' !! k = Some x) /\
+  (forall t', t' <> t -> by_tup s' !! t' = by_tup s !! t') /\
+  (forall k x, by_sid s' !! k = Some x -> by_sid s !! k = Some x \/ s_tup x = t) /\
+  (forall u, r = OTerm u \/ r = OReach u -> exists x, live s x /\ s_uid x = u /\ s_tup x = t).
+Proof.
+  intros HI Hsnd Hs.
+  assert (Hsame : s' = s -> (forall u, r <> OTerm u /\ r <> OReach u) ->
+     (forall k x, by_sid s !! k = Some x -> s_tup x <> t -> by_sid s' !! k = Some x) /\
+     (forall t', t' <> t -> by_tup s' !! t' = by_tup s !! t') /\
+     (forall k x, by_sid s' !! k = Some x -> by_sid s !! k = Some x \/ s_tup x = t) /\
+     (forall u, r = OTerm u \/ r = OReach u -> exists x, live s x /\ s_uid x = u /\ s_tup x = t)).
+  { intros -> Hr. repeat split; auto. intros u [Hu|Hu]; exfalso; destruct (Hr u) as [A B]; congruence. }
+  destruct o as [t0|t0 p|t0 sid|t0 sid|sid|sid t0|n]; simpl in Hsnd; inversion Hsnd; subst t0; simpl in Hs.
+  - destruct (e_grp e t); inversion Hs; subst; apply Hsame; auto; intros u; split; discriminate.
+  - destruct (parse_tags p) as [tg|?| |]; try discriminate;
+      [|inversion Hs; subst; apply Hsame; auto; intros u; split; discriminate].
+    destruct (validate _ _ _ _ _); simpl in Hs; [|inversion Hs; subst; apply Hsame; auto; intros u; split; discriminate].
+    destruct (e_grp e t); simpl in Hs; [|inversion Hs; subst; apply Hsame; auto; intros u; split; discriminate].
+    destruct (allocate Repaired (by_sid s) (next s)) as [[sid n']|?| |] eqn:Ea; try discriminate.
+    apply allocate_sound in Ea; [|apply norm_next_range, HI]. destruct Ea as [Hn' Hsid].
+    destruct (N.eqb_spec sid 0) as [->|Hne]; simpl in Hs; inversion Hs; subst; simpl.
+    + repeat split; auto. intros u [?|?]; discriminate.
+    + destruct Hsid as [?|[Hfree Hr]]; [contradiction|]. repeat split.
+      * intros k x Hk _. rewrite lookup_insert_ne; [exact Hk|]. intros <-. congruence.
+      * intros t' Hne'. rewrite lookup_insert_ne; auto.
+      * intros k x Hk. destruct (N.eq_dec sid k) as [<-|Hnk].
+        -- rewrite lookup_insert in Hk. inversion Hk; subst. right; reflexivity.
+        -- rewrite lookup_insert_ne in Hk by exact Hnk. left; exact Hk.
+      * intros u [?|?]; discriminate.
+  - destruct (by_sid s !! sid) as [x|] eqn:El;
+      [|inversion Hs; subst; apply Hsame; auto; intros u; split; discriminate].
+    destruct (owner_ok Repaired x t) eqn:Eo; inversion Hs; subst;
+      [|apply Hsame; auto; intros u; split; discriminate].
+    apply owner_ok_repaired in Eo. destruct (inv_sid _ HI _ _ El) as [Hsx _]. simpl. repeat split.
+    + intros k y Hk Hy. rewrite lookup_delete_ne; [exact Hk|]. intros <-. rewrite Hsx, El in Hk. congruence.
+    + intros t' Hne'. rewrite lookup_delete_ne; congruence.
+    + intros k y Hk. apply lookup_delete_Some in Hk as [_ Hk]. left; exact Hk.
+    + intros u [Hu|Hu]; inversion Hu; subst. exists x. split; [left; eauto | auto].
+  - destruct (by_sid s !! sid) as [x|] eqn:El;
+      [|inversion Hs; subst; apply Hsame; auto; intros u; split; discriminate].
+    destruct (owner_ok Repaired x t) eqn:Eo; inversion Hs; subst;
+      [|apply Hsame; auto; intros u; split; discriminate].
+    apply owner_ok_repaired in Eo. repeat split; auto.
+    intros u [Hu|Hu]; inversion Hu; subst. exists x. split; [left; eauto | auto].
+Qed.
+
+(* ------------------------------------------------------------------ admission *)
+Lemma padr_needs_cookie v e s t p s' sid uid : step v e s (PADR t p) = Some (s', OPads sid uid) ->
+  exists tg, parse_tags p = Ok tg /\
+    validate (e_H e) (e_ttl e) (e_now_ns e) (t_cookie tg) t = true /\ e_grp e t = true.
+Proof.
+  simpl. destruct (parse_tags p) as [tg|?| |]; try discriminate.
+  destruct (validate _ _ _ _ _) eqn:Ev; simpl; [|discriminate].
+  destruct (e_grp e t) eqn:Eg; simpl; [|discriminate]. intros _. exists tg. auto.
+Qed.
+
+Lemma padr_rejected_no_state v e s t p s' r : step v e s (PADR t p) = Some (s', r) ->
+  (forall tg, parse_tags p = Ok tg -> validate (e_H e) (e_ttl e) (e_now_ns e) (t_cookie tg) t = false) ->
+  s' = s /\ r = ONone.
+Proof.
+  simpl. destruct (parse_tags p) as [tg|?| |]; try discriminate.
+  - intros Hs Hv. rewrite (Hv tg eq_refl) in Hs. simpl in Hs. inversion Hs; auto.
+  - intros Hs _. inversion Hs; auto.
+Qed.
+
+(* every session object that becomes live was created by a PADR answered with PADS, or restored *)
+Lemma step_new_live v e s o s' r x : step v e s o = Some (s', r) -> live s' x ->
+  live s x \/ (exists p, o = PADR (s_tup x) p /\ r = OPads (s_sid x) (s_uid x)) \/ o = RESTORE (s_sid x) (s_tup x).
+Proof.
+  assert (Hadd : forall y s0, live (bump_ctr (add_indexes y s0)) x -> live s0 x \/ x = y).
+  { intros y s0 [[k Hk]|[t Ht]]; simpl in *.
+    - destruct (N.eq_dec (s_sid y) k) as [<-|Hne].
+      + rewrite lookup_insert in Hk. inversion Hk; auto.
+      + rewrite lookup_insert_ne in Hk by exact Hne. left; left; eauto.
+    - destruct (decide (s_tup y = t)) as [<-|Hne].
+      + rewrite lookup_insert in Ht. inversion Ht; auto.
+      + rewrite lookup_insert_ne in Ht by exact Hne. left; right; eauto. }
+  assert (Hrem : forall y s0, live (remove_indexes y s0) x -> live s0 x).
+  { intros y s0 [[k Hk]|[t Ht]]; simpl in *.
+    - apply lookup_delete_Some in Hk as [_ Hk]. left; eauto.
+    - apply lookup_delete_Some in Ht as [_ Ht]. right; eauto. }
+  intros Hs Hl. destruct o as [t|t p|t sid|t sid|sid|sid t|n]; simpl in Hs.
+  - destruct (e_grp e t); inversion Hs; subst; auto.
+  - destruct (parse_tags p) as [tg|?| |]; try discriminate; [|inversion Hs; subst; auto].
+    destruct (validate _ _ _ _ _); simpl in Hs; [|inversion Hs; subst; auto].
+    destruct (e_grp e t); simpl in Hs; [|inversion Hs; subst; auto].
+    destruct (allocate v (by_sid s) (next s)) as [[sid n']|?| |]; try discriminate.
+    destruct (v_sid_guard v && N.eqb sid 0); inversion Hs; subst; [left; exact Hl|].
+    apply Hadd in Hl as [Hl| ->]; [left; exact Hl|]. right; left. exists p. auto.
+  - destruct (by_sid s !! sid) as [y|]; [|inversion Hs; subst; auto].
+    destruct (owner_ok v y t); inversion Hs; subst; auto. left; eapply Hrem; eauto.
+  - destruct (by_sid s !! sid) as [y|]; [|inversion Hs; subst; auto].
+    destruct (owner_ok v y t); inversion Hs; subst; auto.
+  - destruct (by_sid s !! sid) as [y|]; inversion Hs; subst; auto. left; eapply Hrem; eauto.
+  - destruct (_ || _); [discriminate|]. inversion Hs; subst.
+    destruct Hl as [[k Hk]|[t' Ht]]; simpl in *.
+    + assert (live (bump_ctr (add_indexes {| s_uid := ctr s; s_sid := sid; s_tup := t |} s)) x) as Hl by (left; eauto).
+      apply Hadd in Hl as [Hl| ->]; auto.
+    + assert (live (bump_ctr (add_indexes {| s_uid := ctr s; s_sid := sid; s_tup := t |} s)) x) as Hl by (right; eauto).
+      apply Hadd in Hl as [Hl| ->]; auto.
+  - destruct (N.ltb n 65536); inversion Hs; subst. left. exact Hl.
+Qed.
+
+(* ------------------------------------------------------------------ allocation inside PADR *)
+Lemma padr_creates_when_room e s t p tg : Inv s -> parse_tags p = Ok tg ->
+  validate (e_H e) (e_ttl e) (e_now_ns e) (t_cookie tg) t = true -> e_grp e t = true ->
+  (exists j, 0 < j < 65536 /\ by_sid s !! j = None) ->
+  exists s' sid, step Repaired e s (PADR t p) = Some (s', OPads sid (ctr s)) /\ 0 < sid < 65536 /\
+    by_sid s !! sid = None /\ by_sid s' !! sid = Some {| s_uid := ctr s; s_sid := sid; s_tup := t |}.
+Proof.
+  intros HI Hp Hv Hg (j & Hj & Hfree). simpl. rewrite Hp, Hv, Hg. simpl.
+  destruct (allocate_complete Repaired (by_sid s) (next s)) as (sid & n' & Ha & Hc); [apply norm_next_range, HI|].
+  rewrite Ha. pose proof Ha as Hsound. apply allocate_sound in Hsound; [|apply norm_next_range, HI].
+  destruct Hc as [[Hne Hf]|[-> Hall]]; [|exfalso; eapply Hall; eauto].
+  destruct (N.eqb_spec sid 0); [contradiction|]. simpl.
+  destruct Hsound as [_ [?|[_ Hr]]]; [contradiction|].
+  eexists _, sid. split; [reflexivity|]. split; [exact Hr|]. split; [exact Hf|]. simpl. apply lookup_insert.
+Qed.
+
+Lemma padr_full_repaired e s t p s' r : Inv s -> (forall j, 0 < j < 65536 -> by_sid s !! j <> None) ->
+  step Repaired e s (PADR t p) = Some (s', r) -> r = ONone /\ by_sid s' = by_sid s /\ by_tup s' = by_tup s.
+Proof.
+  intros HI Hall. simpl. destruct (parse_tags p) as [tg|?| |]; try discriminate; [|intros Hs; inversion Hs; auto].
+  destruct (validate _ _ _ _ _); simpl; [|intros Hs; inversion Hs; auto].
+  destruct (e_grp e t); simpl; [|intros Hs; inversion Hs; auto].
+  destruct (allocate Repaired (by_sid s) (next s)) as [[sid n']|?| |] eqn:Ea; try discriminate.
+  apply allocate_sound in Ea; [|apply norm_next_range, HI]. destruct Ea as [_ [->|[Hf Hr]]].
+  - simpl. intros Hs; inversion Hs; auto.
+  - exfalso. eapply Hall; eauto.
+Qed.
+
+(* the code as found: with all 65535 ids in use a valid PADR is answered with session-id 0 *)
+Lemma padr_full_defective e s t p tg : 0 < next s < 65536 -> (forall j, 0 < j < 65536 -> by_sid s !! j <> None) ->
+  parse_tags p = Ok tg -> validate (e_H e) (e_ttl e) (e_now_ns e) (t_cookie tg) t = true -> e_grp e t = true ->
+  exists s', step Defective e s (PADR t p) = Some (s', OPads 0 (ctr s)) /\
+    by_sid s' !! 0 = Some {| s_uid := ctr s; s_sid := 0; s_tup := t |}.
+Proof.
+  intros Hn Hall Hp Hv Hg. simpl. rewrite Hp, Hv, Hg. simpl.
+  destruct (allocate_complete Defective (by_sid s) (next s)) as (sid & n' & Ha & Hc); [exact Hn|].
+  rewrite Ha. destruct Hc as [[Hne Hf]|[-> _]].
+  - apply allocate_sound in Ha; [|exact Hn]. destruct Ha as [_ [?|[_ Hr]]]; [contradiction|]. exfalso. eapply Hall; eauto.
+  - eexists. split; [reflexivity|]. simpl. apply lookup_insert.
+Qed.
+
+(* ------------------------------------------------------------------ tags *)
+Lemma parse_tags_loop_fuel : forall fuel p acc, (length p < fuel)%nat -> parse_tags_loop fuel p acc <> OutOfFuel.
+Proof.
+  induction fuel as [|f IH]; intros p acc Hl; [lia|].
+  destruct p as [|a [|b [|c [|d rest]]]]; try discriminate.
+  cbn [parse_tags_loop]. destruct (N.eqb _ 0); [discriminate|].
+  destruct (_ <? _)%nat; [discriminate|]. destruct (tag_update _ _ _); [|discriminate].
+  apply IH. rewrite skipn_length. simpl in Hl. lia.
+Qed.
+
+Lemma parse_tags_terminates p : parse_tags p <> OutOfFuel /\ parse_tags p <> Base.Panic.
+Proof.
+  split; [apply parse_tags_loop_fuel; lia|]. unfold parse_tags. generalize (S (length p)) tags0.
+  intros fuel; revert p. induction fuel as [|f IH]; intros p acc; [discriminate|].
+  destruct p as [|a [|b [|c [|d rest]]]]; try discriminate.
+  cbn [parse_tags_loop]. destruct (N.eqb _ 0); [discriminate|].
+  destruct (_ <? _)%nat; [discriminate|]. destruct (tag_update _ _ _); [|discriminate]. apply IH.
+Qed.
+
+Lemma be16_hi_lo n : n < 65536 -> be16 (hi8 n) (lo8 n) = n.
+Proof. unfold Base.be16, hi8, lo8, Base.byte_of. lia. Qed.
+
+Lemma parse_cookie_tag c : (N.of_nat (length c) < 65536) ->
+  parse_tags (add_tag TagACCookie c) =
+  Ok {| t_cookie := c; t_hostuniq := []; t_maxpayload := 0; t_nraw := 1 |}.
+Proof.
+  intros Hl. unfold parse_tags, add_tag.
+  change ([hi8 TagACCookie; lo8 TagACCookie] ++ [hi8 (N.of_nat (length c)); lo8 (N.of_nat (length c))] ++ c)
+    with (hi8 TagACCookie :: lo8 TagACCookie :: hi8 (N.of_nat (length c)) :: lo8 (N.of_nat (length c)) :: c).
+  cbn [length parse_tags_loop]. rewrite (be16_hi_lo _ Hl), Nat2N.id.
+  change (be16 (hi8 TagACCookie) (lo8 TagACCookie)) with 260.
+  change (N.eqb 260 0) with false. cbv iota.
+  rewrite Nat.ltb_irrefl, firstn_all, skipn_all.
+  change (tag_update tags0 260 c) with (Some {| t_cookie := c; t_hostuniq := []; t_maxpayload := 0; t_nraw := 1 |}).
+  reflexivity.
+Qed.
+
+Lemma generate_length H now t : (forall d, length (H d) = 32%nat) -> length (generate H now t) = 36%nat.
+Proof.
+  intros Hlen. pose proof (generate_shape H now t Hlen) as Hg. destruct t as [[mac sv] cv].
+  rewrite Hg, app_length, Hlen. reflexivity.
+Qed.
+
+(* the cookie of a PADO, echoed in a PADR by the same tuple within the lifetime, is admitted *)
+Lemma padi_padr_roundtrip v e s t s' c : (forall d, length (e_H e d) = 32%nat) ->
+  step v e s (PADI t) = Some (s', OPado c) ->
+  (e_now_ns e - Z.of_N (e_now_s e mod two32) * ns_per_s <= e_ttl e)%Z ->
+  exists tg, parse_tags (add_tag TagACCookie c) = Ok tg /\
+    validate (e_H e) (e_ttl e) (e_now_ns e) (t_cookie tg) t = true.
+Proof.
+  intros Hlen Hs Hfresh. simpl in Hs. destruct (e_grp e t); inversion Hs; subst.
+  eexists. split.
+  - apply parse_cookie_tag. rewrite generate_length by exact Hlen. reflexivity.
+  - simpl. apply cookie_roundtrip; assumption.
+Qed.
+
+(* ------------------------------------------------------------------ witnesses against the code as found *)
+Definition toyH (d : bytes) : bytes := firstn 32 (d ++ repeat 0 32).
+Definition env0 : env :=
+  {| e_H := toyH; e_ttl := 60000000000; e_now_s := 1000; e_now_ns := 1000500000000; e_grp := fun _ => true |}.
+Definition tA : tuple := ([2; 0; 0; 170; 0; 1], 100, 10).
+Definition tB : tuple := ([2; 0; 0; 187; 0; 2], 100, 10).
+Definition padr_of (t : tuple) : op := PADR t (add_tag TagACCookie (generate toyH 1000 t)).
+
+Lemma tA_ne_tB : tA <> tB.
+Proof. discriminate. Qed.
+
+Lemma isolation_padt_refuted : exists e ops s outs x s' r,
+  run Repaired e st0 ops = Some (s, outs) /\ by_sid s !! 1 = Some x /\ s_tup x = tA /\ tA <> tB /\
+  step Defective e s (PADT tB 1) = Some (s', r) /\ r = OTerm (s_uid x) /\ by_sid s' !! 1 = None.
+Proof.
+  exists env0, [padr_of tA]. do 5 eexists.
+  split; [vm_compute; reflexivity|]. split; [vm_compute; reflexivity|]. split; [reflexivity|].
+  split; [exact tA_ne_tB|]. split; [vm_compute; reflexivity|]. split; vm_compute; reflexivity.
+Qed.
+
+Lemma isolation_sess_refuted : exists e ops s outs x s' r,
+  run Repaired e st0 ops = Some (s, outs) /\ by_sid s !! 1 = Some x /\ s_tup x = tA /\ tA <> tB /\
+  step Defective e s (SESS tB 1) = Some (s', r) /\ r = OReach (s_uid x).
+Proof.
+  exists env0, [padr_of tA]. do 5 eexists.
+  split; [vm_compute; reflexivity|]. split; [vm_compute; reflexivity|]. split; [reflexivity|].
+  split; [exact tA_ne_tB|]. split; vm_compute; reflexivity.
+Qed.
+
+(* restoring id 0xFFFF overflows the counter to 0; the next PADR gets session-id 0 *)
+Lemma sid_nonzero_refuted : exists e ops s outs x,
+  run Defective e st0 ops = Some (s, outs) /\ live s x /\ s_sid x = 0 /\
+  outs = [ORestored 0; OPads 0 1].
+Proof.
+  exists env0, [RESTORE 65535 tA; padr_of tB]. do 3 eexists.
+  split; [vm_compute; reflexivity|]. split; [left; exists 0; vm_compute; reflexivity|].
+  split; reflexivity.
+Qed.
+
+(* the same history under the repaired behaviour: id 1 *)
+Example sid_after_restore_repaired :
+  match run Repaired env0 st0 [RESTORE 65535 tA; padr_of tB] with
+  | Some (_, outs) => outs = [ORestored 0; OPads 1 1] | None => False end.
+Proof. vm_compute. reflexivity. Qed.
+
+(* ------------------------------------------------------------------ composites *)
+(* a PADS is sent / a session created only for a cookie this BNG issued for the same tuple
+   within its lifetime (under the unforgeability premise on the HMAC) *)
+Lemma admission v e s t p s' sid uid issued :
+  (forall c d, firstn 32 c = e_H e d -> In d (map enc_issue issued)) ->
+  Forall wf_issue issued -> wf_tuple t ->
+  step v e s (PADR t p) = Some (s', OPads sid uid) ->
+  exists ts, In (t, ts) issued /\ (e_now_ns e - Z.of_N ts * ns_per_s <= e_ttl e)%Z.
+Proof.
+  intros Hunf Hwf Hwt Hs. apply padr_needs_cookie in Hs as (tg & _ & Hv & _).
+  eapply cookie_sound in Hv; eauto. destruct Hv as (ts & Hin & Hfresh & _). eauto.
+Qed.
+
+(* over histories: while only other hosts send packets, a session stays exactly where it is *)
+Lemma isolation_run e t0 : forall ops s s' outs k x,
+  Inv s -> by_sid s !! k = Some x -> s_tup x = t0 ->
+  Forall (fun o => exists t, sender o = Some t /\ t <> t0) ops ->
+  run Repaired e s ops = Some (s', outs) ->
+  by_sid s' !! k = Some x /\ by_tup s' !! t0 = by_tup s !! t0.
+Proof.
+  induction ops as [|o r IH]; simpl; intros s s' outs k x HI Hk Ht Hall Hr.
+  - inversion Hr; subst. auto.
+  - destruct (step Repaired e s o) as [[s1 y]|] eqn:Es; [|discriminate].
+    destruct (run Repaired e s1 r) as [[s2 ys]|] eqn:Er; [|discriminate]. inversion Hr; subst.
+    inversion Hall as [|? ? (t & Hsnd & Hne) Hall']; subst.
+    destruct (isolation _ _ _ _ _ _ HI Hsnd Es) as (I1 & I2 & _ & _).
+    assert (HI1 : Inv s1) by (eapply step_Inv; eauto).
+    assert (Hk1 : by_sid s1 !! k = Some x) by (apply I1; [exact Hk | congruence]).
+    destruct (IH s1 s' ys k x HI1 Hk1 eq_refl Hall' Er) as [R1 R2].
+    split; [exact R1|]. rewrite R2. apply I2. congruence.
+Qed.
+
+(* a concrete HMAC stand-in for which the unforgeability premise holds, for non-vacuity *)
+Definition oneH (d : bytes) : bytes :=
+  if bytes_eqb d (enc_gen [2; 0; 0; 170; 0; 1] 100 10 1000) then repeat 1 32 else repeat 0 32.
+
+Lemma cookie_sound_nonvacuous :
+  let c := generate oneH 1000 tA in
+  (forall d, firstn 32 c = oneH d -> In d (map enc_issue [(tA, 1000)])) /\
+  Forall wf_issue [(tA, 1000)] /\ wf_tuple tA /\
+  validate oneH 60000000000 1000500000000 c tA = true /\
+  validate oneH 60000000000 1061500000000 c tA = false /\
+  validate oneH 60000000000 1000500000000 c tB = false.
+Proof.
+  split.
+  - intros d Hd. change (firstn 32 (generate oneH 1000 tA)) with (repeat 1 32) in Hd.
+    unfold oneH in Hd. destruct (bytes_eqb d _) eqn:E.
+    + apply bytes_eqb_eq in E. left. symmetry. exact E.
+    + discriminate Hd.
+  - split; [repeat constructor; simpl; unfold two32; lia|].
+    split; [simpl; lia|]. repeat split; vm_compute; reflexivity.
+Qed.
+
+Example history_nonvacuous :
+  match run Repaired env0 st0 [PADI tA; padr_of tA; padr_of tB; PADT tB 1; SESS tB 1; SESS tA 1; PADT tA 1; PADT tA 1] with
+  | Some (s, [OPado _; OPads 1 0; OPads 2 1; ONone; ONone; OReach 0; OTerm 0; ONone]) =>
+      by_sid s !! 1 = None /\ (exists x, by_sid s !! 2 = Some x /\ s_tup x = tB)
+  | _ => False
+  end.
+Proof. vm_compute. split; [reflexivity | eexists; split; reflexivity]. Qed.
